@@ -177,7 +177,7 @@ template <class T> inline bool biteq(T a, T b) { return std::memcmp(&a, &b, std:
 template <class Ad> void arith(const char* name, uint64_t seed, int n) {
   using Q = typename Ad::Q; using T = typename Ad::T; constexpr int N = Ad::N;
   std::mt19937_64 g(seed * 31 + N); const char* ops[6] = {"add", "sub", "muln", "nmul", "divn", "ratio"};
-  long cnt[6] = {0}, pure_bad[6] = {0}, comp_bad[6] = {0}; long double wit[6] = {0};
+  long cnt[6] = {0}, pure_bad[6] = {0}, comp_bad[6] = {0}; long double wit[6] = {0}; long cntm = 0, pure_m = 0, comp_m = 0;
   auto rnd = [&]() { T m = (T)(1.0L + (long double)(g() >> 11) / (long double)(1ULL << 53)); if (sizeof(T) > 8) m += (T)std::ldexp((long double)(g() & 1023), -63); return std::ldexp(m, (int)(g() % 24) - 12) * ((g() & 1) ? 1 : -1); };
   for (int t = 0; t < n; t++) {
     T ca[9], cb[9]; for (int i = 0; i < N; i++) { ca[i] = rnd(); cb[i] = rnd(); } T k = rnd(); if (t % 7 == 0) k = (T)((int)(g() % 19) - 9 == 0 ? 3 : (int)(g() % 19) - 9);
@@ -194,8 +194,16 @@ template <class Ad> void arith(const char* name, uint64_t seed, int n) {
     if constexpr (has_nmul<Q, T>::value) { cnt[3]++; auto x = k * a; getc(x, r); for (int i = 0; i < N; i++) want[i] = k * va[i]; check(3, r, want, false); }
     if constexpr (has_divn<Q, T>::value) { cnt[4]++; auto x = a / k; getc(x, r); for (int i = 0; i < N; i++) want[i] = va[i] / k; check(4, r, want, false);
       if constexpr (has_diveq<Q, T>::value) { Q y = a; y /= k; getc(y, c2); check(4, c2, r, true); } }
+    // raw shapes accept a number of ANY arithmetic type: the number is converted to T first, then the native operation is applied (as documented)
+    if constexpr (N > 1 && !has_value<Q>::value) { long double kl = (long double)k * (1.0L + std::ldexp((long double)(1 + (g() & 1023)), -40)); float kf = (float)kl; double kd = (double)kl; int ki = (int)(g() % 19) - 9; if (ki == 0) ki = 7;
+      auto mixed = [&](auto ko) { T kk = static_cast<T>(ko); cntm++; T w[9], r2[9];
+        { auto x = a * ko; getc(x, r2); for (int i = 0; i < N; i++) w[i] = va[i] * kk; for (int i = 0; i < N; i++) if (!biteq(r2[i], w[i])) { pure_m++; break; } Q y = a; y *= ko; getc(y, c2); for (int i = 0; i < N; i++) if (!biteq(c2[i], w[i])) { comp_m++; break; } }
+        { auto x = ko * a; getc(x, r2); for (int i = 0; i < N; i++) w[i] = va[i] * kk; for (int i = 0; i < N; i++) if (!biteq(r2[i], w[i])) { pure_m++; break; } }
+        { auto x = a / ko; getc(x, r2); for (int i = 0; i < N; i++) w[i] = va[i] / kk; for (int i = 0; i < N; i++) if (!biteq(r2[i], w[i])) { pure_m++; break; } Q y = a; y /= ko; getc(y, c2); for (int i = 0; i < N; i++) if (!biteq(c2[i], w[i])) { comp_m++; break; } } };
+      mixed(kf); mixed(kd); mixed(kl); mixed(ki); }
     if constexpr (has_ratio<Q, T>::value) { cnt[5]++; T x = a / b; want[0] = va[0] / vb[0]; if (!biteq(x, want[0])) { if (!pure_bad[5]) wit[5] = (long double)va[0]; pure_bad[5]++; } }
   }
+  if (cntm) printf("{\"e\":\"Arith\",\"type\":\"%s\",\"num\":\"%s\",\"op\":\"number_of_other_type\",\"n\":%ld,\"pure_bad\":%ld,\"compound_bad\":%ld,\"witness\":\"0x0p+0\"}\n", name, NumName<T>::c, cntm, pure_m, comp_m);
   for (int o = 0; o < 6; o++) if (cnt[o]) printf("{\"e\":\"Arith\",\"type\":\"%s\",\"num\":\"%s\",\"op\":\"%s\",\"n\":%ld,\"pure_bad\":%ld,\"compound_bad\":%ld,\"witness\":\"%La\"}\n", name, NumName<T>::c, ops[o], cnt[o], pure_bad[o], comp_bad[o], wit[o]);
 }
 
